@@ -7,6 +7,7 @@
 #include <memory>
 #include "common/runner.hpp"
 #include "common/graphs.hpp"
+#include "common/bigref.hpp"
 #include "common/bgl.hpp"
 #include "common/variants.hpp"
 
@@ -44,7 +45,11 @@ static void run_case(vr::Runner &R, const Cfg &cfg, const vg::EdgeList &el, cons
         if (cfg.do_c02) {
             // C02 speaks about the weight of what was emitted; it is evaluated whenever the emitted edges can be weighed at all
             if (!chk.identifiable) { R.violation({vv::variant_name(var), "unweighable-output", cs(), "emitted lists contain descriptors that are not edges of the input, so their weight is undefined"}); continue; }
-            if (!have_ref) { ref = vg::reference_mcb<double>(cyc, w, dim); std::sort(ref.weights.begin(), ref.weights.end()); have_ref = true; }
+            if (!have_ref) {
+                if (!cyc.empty() || dim == 0) { ref = vg::reference_mcb<double>(cyc, w, dim); std::sort(ref.weights.begin(), ref.weights.end()); }
+                else { auto h = vbig::horton_reference(el, w); ref.total = h.total; ref.weights = h.weights; }    // larger instances: independent Horton reference
+                have_ref = true;
+            }
             if ((double) ret != chk.listed_total) {
                 R.violation({vv::variant_name(var), "return-mismatch", cs(), "returned " + vg::fmt_w((double) ret) + " but emitted cycles weigh " + vg::fmt_w(chk.listed_total)});
                 continue;
@@ -78,7 +83,7 @@ int main(int argc, char **argv) {
         cfg.variants = {vv::variant_by_short(pc.get("variant", "signed"))};
         cfg.w_int = pc.get("wtype", "double") == "int";
         int dim = vg::cycle_space_dim(pc.g);
-        auto cyc = vg::all_simple_cycles(pc.g);
+        std::vector<uint64_t> cyc; if (dim <= 15 && pc.g.m() <= 62) cyc = vg::all_simple_cycles(pc.g);
         R.worker_id = 0;
         if (cfg.w_int) { vb::Built<int> b(pc.g, pc.w); run_case<int>(R, cfg, pc.g, pc.w, cyc, dim, 0, 0, b, true); }
         else { vb::Built<double> b(pc.g, pc.w); run_case<double>(R, cfg, pc.g, pc.w, cyc, dim, 0, 0, b, true); }
@@ -99,6 +104,7 @@ int main(int argc, char **argv) {
     if (A.has("grammar")) { auto t = vr::split(A.get("grammar"), ':'); blob.reset(new vg::BlobUniverse(atoi(t[1].c_str()), atoi(t[2].c_str()))); }
     uint64_t total_units = blob ? blob->size() : fams.empty() ? vg::num_graphs(n) : fams.size();
     int max_m = (int) A.geti("max-m", 62), min_m = (int) A.geti("min-m", 0);
+    int horton_above_dim = (int) A.geti("horton-above-dim", 15);
     uint64_t seed = (uint64_t) A.geti("seed", 0);
 
     auto unit_graph = [&](uint64_t u) -> vg::EdgeList {
@@ -116,8 +122,9 @@ int main(int argc, char **argv) {
         vg::EdgeList el = unit_graph(u);
         if (el.m() > max_m || el.m() < min_m) { R.count(C_SKIPPED); return; }
         int dim = vg::cycle_space_dim(el);
-        auto cyc = vg::all_simple_cycles(el);
-        uint64_t nw = vg::ipow(alpha.size(), el.m());
+        // all-cycles enumeration only where it is cheap; beyond that the Horton reference (cross-validated in C08) is the oracle
+        std::vector<uint64_t> cyc; if (dim <= horton_above_dim) cyc = vg::all_simple_cycles(el);
+        uint64_t nw = vg::num_weightings(alpha, el.m());
         std::vector<double> w;
         if (cfg.w_int) {
             vg::weighting(alpha, el.m(), 0, w); vb::Built<int> b(el, w);
@@ -136,7 +143,7 @@ int main(int argc, char **argv) {
     for (uint64_t u : {total_units / 2, total_units - 1, total_units / 3}) {
         if (u >= total_units) continue;
         vg::EdgeList el = unit_graph(u);
-        uint64_t nw = vg::ipow(alpha.size(), el.m());
+        uint64_t nw = vg::num_weightings(alpha, el.m());
         samples.push_back(describe(u, nw / 2, cfg.variants[0]).second);
     }
     FILE *o = A.has("out") ? fopen(A.get("out").c_str(), "w") : stdout;
